@@ -126,10 +126,23 @@ def mk_elem(it, loop, path):
     return ('elem', it, loop, path)
 
 
+def _uncarried_name(name, step):
+    """Structural name for a variable that is bound inside a loop only."""
+    import hashlib
+    er = T.transform(step, lambda x: ('phi', x[1], '?') if x[0] == 'phi' else None)
+    cn = 'u' + hashlib.md5(repr(er).encode()).hexdigest()[:5]
+    T.DISPLAY_NAMES[cn] = name
+    return cn
+
+
 class FuncAnalysis:
     """Result of evaluating one function."""
 
-    def __init__(self, repo: Repo, fi: FuncInfo, closure=None, analyses=None):
+    def __init__(self, repo: Repo, fi: FuncInfo, closure=None, analyses=None, versioned=False):
+        # versioned: in-place mutation (x[k] = v, x[k] op= v, x.append(v) ...) gives later
+        # reads of x a new version term ('mut', x, n), which makes comparisons order-sensitive
+        self.versioned = versioned
+        self._ver = {}
         self.repo = repo
         self.fi = fi
         self.module = fi.module
@@ -163,6 +176,17 @@ class FuncAnalysis:
     def _unk(self, why):
         self._n_unk += 1
         return ('unk', why, self._n_unk)
+
+    def _bump(self, base):
+        if not self.versioned or base[0] in ('c', 'g', 'unk'):
+            return
+        root = T.unmut(base)
+        n = self._ver.get(root, 0) + 1
+        self._ver[root] = n
+        new = ('mut', root, n)
+        for k, v in list(self.env.items()):
+            if isinstance(v, tuple) and (v == base or (v[0] == 'mut' and v[1] == root) or v == root):
+                self.env[k] = new
 
     def _emit(self, kind, node, **d):
         ev = Event(kind, len(self.events), getattr(node, 'lineno', 0), tuple(self._guards),
@@ -360,6 +384,7 @@ class FuncAnalysis:
             new = T.binop(op, old, v)
             self._emit('aug_sub', s, base=base, key=key, op=op, old=old, value=v, new=new)
             self.env[('$s', base, key)] = new
+            self._bump(base)
         elif isinstance(tgt, ast.Attribute):
             base = self.ev(tgt.value)
             old = self._load_attr(base, tgt.attr)
@@ -397,6 +422,7 @@ class FuncAnalysis:
             key = self._ev_index(tgt.slice)
             self._emit('store_sub', node, base=base, key=key, value=v)
             self.env[('$s', base, key)] = v
+            self._bump(base)
         elif isinstance(tgt, ast.Attribute):
             base = self.ev(tgt.value)
             self._emit('store_attr', node, base=base, attr=tgt.attr, value=v)
@@ -576,7 +602,7 @@ class FuncAnalysis:
                 new_env[name] = init
                 continue
             brk = tuple(sorted({be.get(name, UNDEF) for be in li.break_envs} - {step}, key=repr))
-            cn = canon.get(name, name)
+            cn = canon.get(name) or _uncarried_name(name, step)
             li.carried[cn] = (init, step)
             li.names[cn] = name
             new_env[name] = ('after', li.id, cn, init, step, brk)
@@ -651,7 +677,7 @@ class FuncAnalysis:
                 new_env[name] = init
                 continue
             brk = tuple(sorted({be.get(name, UNDEF) for be in li.break_envs} - {step}, key=repr))
-            cn = canon.get(name, name)
+            cn = canon.get(name) or _uncarried_name(name, step)
             li.carried[cn] = (init, step)
             li.names[cn] = name
             new_env[name] = ('after', li.id, cn, init, step, brk)
@@ -1011,6 +1037,8 @@ class FuncAnalysis:
         t = T.call(f, args, kws)
         self._emit('call', n, term=t, f=f, args=tuple(args), kws=tuple(sorted(kws, key=repr)),
                    stmt=stmt)
+        if self.versioned and stmt and f[0] == 'attr' and f[2] in _MUTATORS:
+            self._bump(f[1])
         return t
 
 
